@@ -72,6 +72,10 @@ def evaluate(run, lines, meta, exe, drv):
         enc, dec = t[3], t[4]
         # --- the property, evaluated on the implementation's own observations
         want = canon(parse(v), True)
+        if tag(enc) == 'writer-err' and fw.null_ns_schema(st) and show(parse(model.get(cid + 'e', '(missing)'))) == show(enc):
+            # no writer can be built for this schema, and the faithful model says the same (F26)
+            run.fail('unresolvable-reference-accepted', 'the parser accepted the schema but no writer can be built for it (a null-namespace name used inside a namespaced type)', case)
+            continue
         if tag(enc) != 'ok':
             run.fail('encode-fails', 'conforming value is not encoded: %s' % show(enc), case)
         elif tag(dec) != 'ok':
